@@ -290,7 +290,7 @@ def prototype_validation(ctx, prog, rule):
     r = prog.fn("e57_writer::E57Writer::<T>::register_extension")
     S4 = Steps(ctx, r, rule)
     S4.step("name-validation", calls_where(r, lambda c, t, R: c == "extension::Extension::validate_name"))
-    dup = calls_where(r, lambda c, t, R: c.endswith("::any"))
+    dup = calls_where(r, lambda c, t, R: c.rsplit("::", 1)[-1] in ("any", "find", "position") and t["args"] and "extensions" in tree_str(R.operand(t["args"][0])))
     if not dup:
         # the same test as an explicit loop: `for e in &self.extensions { if e.namespace == extension.namespace { return Err } }`
         import elems
